@@ -357,3 +357,226 @@ Theorem C02_gen_compute_spfs_entry_eq :
 Proof. exact @gen_compute_spfs_entry_eq. Qed.
 Print Assumptions C02_gen_compute_spfs_entry_eq.
 
+
+(* ---- closing corollaries added after the independent review (DESIGN 10.3): the lemmas are in Proofs/ReviewC*.v ---- *)
+
+From SR Require Import Proofs.ReviewCModels Proofs.ReviewCSpfsOpt Proofs.ReviewCSpfsAny. Import ReviewCModels.PartA ReviewCSpfsOpt.PartB_C02 ReviewCSpfsAny.PartCspfs.
+
+Theorem C02_c02_any :
+  forall (S : stree) (c : costs) (extended : bool) (orders : list (list fam)) (O : otree),
+       nn (c_hgt c) ->
+       orders_ok S O orders ->
+       coherent_ord c ->
+       exists e : entry ltree,
+         spfs S c RANY extended orders O = Some e /\
+         (tags e = [] /\ (forall lt : ltree, ~ sol S extended orders O lt) \/
+          (exists lt : ltree, tags e = [lt] /\ optimal_sol S c extended orders O lt)).
+Proof. exact @c02_any. Qed.
+Print Assumptions C02_c02_any.
+
+Theorem C02_c02_all_exact :
+  forall (S : stree) (c : costs) (extended : bool) (orders : list (list fam)) (O : otree),
+       nn (c_hgt c) ->
+       orders_ok S O orders ->
+       coherent_ord c ->
+       forall e : entry ltree,
+       spfs S c RALL extended orders O = Some e ->
+       forall lt : ltree, In lt (tags e) <-> optimal_sol S c extended orders O lt.
+Proof. exact @c02_all_exact. Qed.
+Print Assumptions C02_c02_all_exact.
+
+Theorem C02_stage1_orders :
+  forall (node_id : Type) (S : stree) (leafsp : node_id -> path) (syn : node_id -> list fam)
+         (O : EV.TreeNode node_id) (syn_mem : (node_id -> list fam) -> node_id -> bool)
+         (syn_items : (node_id -> list fam) -> list (fam * list fam))
+         (set_order : list fam -> list fam)
+         (graph_of_prec : list (fam * list fam) -> list (fam * list fam)),
+       stage1_hyps S leafsp syn O syn_mem syn_items set_order graph_of_prec ->
+       exists orders ro : list (list fam),
+         spfs_orders syn O syn_mem syn_items set_order graph_of_prec orders /\
+         root_orders (EvalGenProofs.otree_of leafsp syn O) = Some ro /\
+         Permutation.Permutation orders ro.
+Proof. exact @stage1_orders. Qed.
+Print Assumptions C02_stage1_orders.
+
+Theorem C02_c02_gen_extended_optimum :
+  forall (lca node_id : Type) (nid_eqb : node_id -> node_id -> bool),
+       (forall a b : node_id, reflect (a = b) (nid_eqb a b)) ->
+       forall (lcaobj : lca) (S : stree) (c : costs) (leafsp : node_id -> path)
+         (syn : node_id -> list fam) (O : EV.TreeNode node_id) (missing : node_id -> path)
+         (missing_syn : node_id -> list fam) (ord_infos : list ca -> list ca)
+         (oeqb : SG.spout_state -> SG.spout_state -> bool)
+         (syn_mem : (node_id -> list fam) -> node_id -> bool)
+         (syn_items : (node_id -> list fam) -> list (fam * list fam))
+         (set_order : list fam -> list fam)
+         (graph_of_prec : list (fam * list fam) -> list (fam * list fam))
+         (find_cycle_fn : list (fam * list fam) -> list fam),
+       W nid_eqb S c leafsp syn O missing missing_syn ord_infos oeqb ->
+       coherent_ord c ->
+       stage1_hyps S leafsp syn O syn_mem syn_items set_order graph_of_prec ->
+       exists outs : list SG.spout_state,
+         SG.gen_sreconcile_extended_spfs fam_eqb path_eqb nid_eqb (fun _ : lca => anc)
+           (fun _ : lca => lcp) (fun _ : lca => dist) (fun _ : lca => sembed3 S [])
+           (fun _ : lca => sanc) (fun _ : lca => comparable) oeqb missing missing_syn ord_infos
+           syn_mem syn_items set_order graph_of_prec find_cycle_fn
+           {|
+             T3.EvalGen.sin_object_tree := O;
+             T3.EvalGen.sin_species_lca := lcaobj;
+             T3.EvalGen.sin_leaf_object_species := leafsp;
+             T3.EvalGen.sin_costs := EvalGenProofs.stsocc c;
+             T3.EvalGen.sin_leaf_syntenies := syn
+           |} (EntryGenProofs.prc RALL) = SG.Ok outs /\
+         NoDup (map (lt_out nid_eqb O missing missing_syn) outs) /\
+         (forall lt : ltree,
+          In lt (map (lt_out nid_eqb O missing missing_syn) outs) <->
+          ext_min S c leafsp syn O (compatible_order (EvalGenProofs.otree_of leafsp syn O)) lt) /\
+         (outs = [] <->
+          (forall ord : list fam, ~ compatible_order (EvalGenProofs.otree_of leafsp syn O) ord)).
+Proof. exact @c02_gen_extended_optimum. Qed.
+Print Assumptions C02_c02_gen_extended_optimum.
+
+Theorem C02_c02_gen_base_optimum :
+  forall (lca node_id : Type) (nid_eqb : node_id -> node_id -> bool),
+       (forall a b : node_id, reflect (a = b) (nid_eqb a b)) ->
+       forall (lcaobj : lca) (S : stree) (c : costs) (leafsp : node_id -> path)
+         (syn : node_id -> list fam) (O : EV.TreeNode node_id) (missing : node_id -> path)
+         (missing_syn : node_id -> list fam) (ord_infos : list ca -> list ca)
+         (oeqb : SG.spout_state -> SG.spout_state -> bool)
+         (syn_mem : (node_id -> list fam) -> node_id -> bool)
+         (syn_items : (node_id -> list fam) -> list (fam * list fam))
+         (set_order : list fam -> list fam)
+         (graph_of_prec : list (fam * list fam) -> list (fam * list fam))
+         (find_cycle_fn : list (fam * list fam) -> list fam),
+       W nid_eqb S c leafsp syn O missing missing_syn ord_infos oeqb ->
+       coherent_ord c ->
+       stage1_hyps S leafsp syn O syn_mem syn_items set_order graph_of_prec ->
+       exists outs : list SG.spout_state,
+         SG.gen_sreconcile_base_spfs fam_eqb path_eqb nid_eqb (fun _ : lca => anc)
+           (fun _ : lca => lcp) (fun _ : lca => dist) (fun _ : lca => sembed3 S [])
+           (fun _ : lca => sanc) (fun _ : lca => comparable) oeqb missing missing_syn ord_infos
+           syn_mem syn_items set_order graph_of_prec find_cycle_fn
+           {|
+             T3.EvalGen.sin_object_tree := O;
+             T3.EvalGen.sin_species_lca := lcaobj;
+             T3.EvalGen.sin_leaf_object_species := leafsp;
+             T3.EvalGen.sin_costs := EvalGenProofs.stsocc c;
+             T3.EvalGen.sin_leaf_syntenies := syn
+           |} (EntryGenProofs.prc RALL) = SG.Ok outs /\
+         NoDup (map (lt_out nid_eqb O missing missing_syn) outs) /\
+         (forall lt : ltree,
+          In lt (map (lt_out nid_eqb O missing missing_syn) outs) <->
+          base_min S c leafsp syn O (compatible_order (EvalGenProofs.otree_of leafsp syn O)) lt) /\
+         (outs = [] <->
+          (forall ord : list fam, ~ compatible_order (EvalGenProofs.otree_of leafsp syn O) ord)).
+Proof. exact @c02_gen_base_optimum. Qed.
+Print Assumptions C02_c02_gen_base_optimum.
+
+Theorem C02_c02_gen_extended_optimum_orders :
+  forall (lca node_id : Type) (nid_eqb : node_id -> node_id -> bool),
+       (forall a b : node_id, reflect (a = b) (nid_eqb a b)) ->
+       forall (lcaobj : lca) (S : stree) (c : costs) (leafsp : node_id -> path)
+         (syn : node_id -> list fam) (O : EV.TreeNode node_id) (missing : node_id -> path)
+         (missing_syn : node_id -> list fam) (ord_infos : list ca -> list ca)
+         (oeqb : SG.spout_state -> SG.spout_state -> bool)
+         (syn_mem : (node_id -> list fam) -> node_id -> bool)
+         (syn_items : (node_id -> list fam) -> list (fam * list fam))
+         (set_order : list fam -> list fam)
+         (graph_of_prec : list (fam * list fam) -> list (fam * list fam))
+         (find_cycle_fn : list (fam * list fam) -> list fam) (orders : list (list fam)),
+       W nid_eqb S c leafsp syn O missing missing_syn ord_infos oeqb ->
+       coherent_ord c ->
+       spfs_orders syn O syn_mem syn_items set_order graph_of_prec orders ->
+       orders_ok S (EvalGenProofs.otree_of leafsp syn O) orders ->
+       exists outs : list SG.spout_state,
+         SG.gen_sreconcile_extended_spfs fam_eqb path_eqb nid_eqb (fun _ : lca => anc)
+           (fun _ : lca => lcp) (fun _ : lca => dist) (fun _ : lca => sembed3 S [])
+           (fun _ : lca => sanc) (fun _ : lca => comparable) oeqb missing missing_syn ord_infos
+           syn_mem syn_items set_order graph_of_prec find_cycle_fn
+           {|
+             T3.EvalGen.sin_object_tree := O;
+             T3.EvalGen.sin_species_lca := lcaobj;
+             T3.EvalGen.sin_leaf_object_species := leafsp;
+             T3.EvalGen.sin_costs := EvalGenProofs.stsocc c;
+             T3.EvalGen.sin_leaf_syntenies := syn
+           |} (EntryGenProofs.prc RALL) = SG.Ok outs /\
+         NoDup (map (lt_out nid_eqb O missing missing_syn) outs) /\
+         (forall lt : ltree,
+          In lt (map (lt_out nid_eqb O missing missing_syn) outs) <->
+          ext_min S c leafsp syn O (fun ord : list fam => In ord orders) lt).
+Proof. exact @c02_gen_extended_optimum_orders. Qed.
+Print Assumptions C02_c02_gen_extended_optimum_orders.
+
+Theorem C02_gen_sreconcile_extended_spfs_any :
+  forall (lca node_id : Type) (nid_eqb : node_id -> node_id -> bool),
+       (forall a b : node_id, reflect (a = b) (nid_eqb a b)) ->
+       forall (lcaobj : lca) (S : stree) (c : costs) (leafsp : node_id -> path)
+         (syn : node_id -> list fam) (O : EV.TreeNode node_id) (missing : node_id -> path)
+         (missing_syn : node_id -> list fam) (ord_infos : list ca -> list ca)
+         (oeqb : SG.spout_state -> SG.spout_state -> bool)
+         (syn_mem : (node_id -> list fam) -> node_id -> bool)
+         (syn_items : (node_id -> list fam) -> list (fam * list fam))
+         (set_order : list fam -> list fam)
+         (graph_of_prec : list (fam * list fam) -> list (fam * list fam))
+         (find_cycle_fn : list (fam * list fam) -> list fam) (orders : list (list fam))
+         (e : entry ltree),
+       W nid_eqb S c leafsp syn O missing missing_syn ord_infos oeqb ->
+       spfs_orders syn O syn_mem syn_items set_order graph_of_prec orders ->
+       orders_ok S (EvalGenProofs.otree_of leafsp syn O) orders ->
+       coherent_ord c ->
+       spfs S c RALL true orders (EvalGenProofs.otree_of leafsp syn O) = Some e ->
+       exists outs : list SG.spout_state,
+         SG.gen_sreconcile_extended_spfs fam_eqb path_eqb nid_eqb (fun _ : lca => anc)
+           (fun _ : lca => lcp) (fun _ : lca => dist) (fun _ : lca => sembed3 S [])
+           (fun _ : lca => sanc) (fun _ : lca => comparable) oeqb missing missing_syn ord_infos
+           syn_mem syn_items set_order graph_of_prec find_cycle_fn
+           {|
+             T3.EvalGen.sin_object_tree := O;
+             T3.EvalGen.sin_species_lca := lcaobj;
+             T3.EvalGen.sin_leaf_object_species := leafsp;
+             T3.EvalGen.sin_costs := EvalGenProofs.stsocc c;
+             T3.EvalGen.sin_leaf_syntenies := syn
+           |} (EntryGenProofs.prc RANY) = SG.Ok outs /\
+         (outs = [] \/
+          (exists o : SG.spout_state,
+             outs = [o] /\ In (lt_out nid_eqb O missing missing_syn o) (tags e))) /\
+         (outs = [] <-> tags e = []).
+Proof. exact @gen_sreconcile_extended_spfs_any. Qed.
+Print Assumptions C02_gen_sreconcile_extended_spfs_any.
+
+Theorem C02_gen_sreconcile_base_spfs_any :
+  forall (lca node_id : Type) (nid_eqb : node_id -> node_id -> bool),
+       (forall a b : node_id, reflect (a = b) (nid_eqb a b)) ->
+       forall (lcaobj : lca) (S : stree) (c : costs) (leafsp : node_id -> path)
+         (syn : node_id -> list fam) (O : EV.TreeNode node_id) (missing : node_id -> path)
+         (missing_syn : node_id -> list fam) (ord_infos : list ca -> list ca)
+         (oeqb : SG.spout_state -> SG.spout_state -> bool)
+         (syn_mem : (node_id -> list fam) -> node_id -> bool)
+         (syn_items : (node_id -> list fam) -> list (fam * list fam))
+         (set_order : list fam -> list fam)
+         (graph_of_prec : list (fam * list fam) -> list (fam * list fam))
+         (find_cycle_fn : list (fam * list fam) -> list fam) (orders : list (list fam))
+         (e : entry ltree),
+       W nid_eqb S c leafsp syn O missing missing_syn ord_infos oeqb ->
+       spfs_orders syn O syn_mem syn_items set_order graph_of_prec orders ->
+       orders_ok S (EvalGenProofs.otree_of leafsp syn O) orders ->
+       coherent_ord c ->
+       spfs S c RALL false orders (EvalGenProofs.otree_of leafsp syn O) = Some e ->
+       exists outs : list SG.spout_state,
+         SG.gen_sreconcile_base_spfs fam_eqb path_eqb nid_eqb (fun _ : lca => anc)
+           (fun _ : lca => lcp) (fun _ : lca => dist) (fun _ : lca => sembed3 S [])
+           (fun _ : lca => sanc) (fun _ : lca => comparable) oeqb missing missing_syn ord_infos
+           syn_mem syn_items set_order graph_of_prec find_cycle_fn
+           {|
+             T3.EvalGen.sin_object_tree := O;
+             T3.EvalGen.sin_species_lca := lcaobj;
+             T3.EvalGen.sin_leaf_object_species := leafsp;
+             T3.EvalGen.sin_costs := EvalGenProofs.stsocc c;
+             T3.EvalGen.sin_leaf_syntenies := syn
+           |} (EntryGenProofs.prc RANY) = SG.Ok outs /\
+         (outs = [] \/
+          (exists o : SG.spout_state,
+             outs = [o] /\ In (lt_out nid_eqb O missing missing_syn o) (tags e))) /\
+         (outs = [] <-> tags e = []).
+Proof. exact @gen_sreconcile_base_spfs_any. Qed.
+Print Assumptions C02_gen_sreconcile_base_spfs_any.
+
